@@ -101,6 +101,60 @@ func mkReflectValue(t types.Type, v Value) *StructV {
 	return &StructV{F: []Value{refTo(typeRefOf(t)), refTo(&IfaceVal{T: t, V: v}), BV(kindOf(t), 64)}}
 }
 
+// rvIndir: flag bit of an addressable Value (the result of Elem on a pointer): its payload box holds the
+// ADDRESS of the variable; reads go through it, Set stores through it (reflect's flagIndir).
+const rvIndir = 1 << 8
+
+func mkIndirValue(t types.Type, ptr *RefV) *StructV {
+	return &StructV{F: []Value{refTo(typeRefOf(t)), refTo(&IfaceVal{T: t, V: ptr}), BV(kindOf(t)|rvIndir, 64)}}
+}
+
+func rvIsIndir(sv Value) bool {
+	f, ok := sv.(*StructV).F[2].(*Term)
+	if !ok {
+		return false
+	}
+	if f.IsConst() {
+		return f.val&rvIndir != 0
+	}
+	// a merged flag word: addressable on every path or on none
+	leaves, ok := constLeaves(f, 64)
+	if !ok {
+		inconclusive("reflect.Value flag word is not a choice among constants")
+	}
+	n, valid := 0, 0
+	for _, l := range leaves {
+		if l == 0 {
+			continue // the zero Value (not valid) on that path
+		}
+		valid++
+		if l&rvIndir != 0 {
+			n++
+		}
+	}
+	if n != 0 && n != valid {
+		inconclusive("reflect.Value is addressable on some paths only")
+	}
+	return n != 0
+}
+
+// rvAddr: the address held by an addressable Value (nil if not addressable).
+func rvAddr(sv Value, g *Term) *RefV {
+	if !rvIsIndir(sv) {
+		return nil
+	}
+	r := pruneRefUnder(sv.(*StructV).F[1].(*RefV), g)
+	if len(r.Alts) != 1 {
+		return nil
+	}
+	if iv, ok := r.Alts[0].R.(*IfaceVal); ok {
+		if p, ok := iv.V.(*RefV); ok {
+			return p
+		}
+	}
+	return nil
+}
+
 func zeroReflectValue() *StructV {
 	return &StructV{F: []Value{nilRef(), nilRef(), BV(0, 64)}}
 }
@@ -128,6 +182,30 @@ func rvInner(sv Value, g *Term) Value {
 	if !ok {
 		return nilRef()
 	}
+	if rvIsIndir(sv) {
+		// addressable: the current value of the variable
+		p, ok := iv.V.(*RefV)
+		if !ok {
+			inconclusive("addressable reflect.Value without an address")
+		}
+		var res Value
+		for i := len(p.Alts) - 1; i >= 0; i-- {
+			cell, ok := p.Alts[i].R.(*Cell)
+			if !ok {
+				continue
+			}
+			v := loadCell(cell)
+			if res == nil {
+				res = v
+			} else {
+				res = iteValue(p.Alts[i].G, v, res)
+			}
+		}
+		if res == nil {
+			inconclusive("addressable reflect.Value with a nil address")
+		}
+		return res
+	}
 	return iv.V
 }
 
@@ -136,8 +214,15 @@ func rvType(cc *CallCtx, v Value) types.Type {
 	s := v.(*StructV)
 	r := pruneRefUnder(s.F[0].(*RefV), cc.c.g)
 	if len(r.Alts) > 1 && cc.site.Call != nil && !cc.site.Common.IsInvoke() && len(cc.site.Common.Args) > 0 {
-		// fork on the type of the receiver Value (argument 0): each clone re-executes the call
-		if reg := cc.site.Common.Args[0]; cc.f.regs[reg] == v {
+		// fork on the type of the Value argument: each clone re-executes the call
+		var reg ssa.Value
+		for _, a := range cc.site.Common.Args {
+			if cc.f.regs[a] == v {
+				reg = a
+				break
+			}
+		}
+		if reg != nil {
 			for _, a := range r.Alts {
 				n := cc.c.clone()
 				n.g = And(cc.c.g, a.G)
@@ -250,7 +335,13 @@ func init() {
 		cc.finish(rtypeIface(iv.T))
 		return true
 	}}
-	models["(reflect.Value).Kind"] = &Model{Plain: func(cc *CallCtx) Value { return cc.args[0].(*StructV).F[2] }}
+	models["(reflect.Value).Kind"] = &Model{Plain: func(cc *CallCtx) Value {
+		f := cc.args[0].(*StructV).F[2].(*Term)
+		if f.IsConst() {
+			return BV(f.val&0xff, 64)
+		}
+		return BvAnd(f, BV(0xff, 64))
+	}}
 	models["(reflect.Value).IsValid"] = &Model{Plain: func(cc *CallCtx) Value {
 		return Not(Eq(cc.args[0].(*StructV).F[2].(*Term), BV(0, 64)))
 	}}
@@ -298,11 +389,96 @@ func init() {
 		if isNil.IsTrue() {
 			return zeroReflectValue()
 		}
-		base := cc.c.g
-		cc.c.g = And(base, Not(isNil))
-		v := cc.e.load(cc.c, p)
-		cc.c.g = base
-		return iteValue(isNil, zeroReflectValue(), mkReflectValue(pt.Elem(), v))
+		if !isNil.IsFalse() {
+			// possibly nil: fall back to a by-value result (the code in scope checks IsNil first)
+			base := cc.c.g
+			cc.c.g = And(base, Not(isNil))
+			v := cc.e.load(cc.c, p)
+			cc.c.g = base
+			return iteValue(isNil, zeroReflectValue(), mkReflectValue(pt.Elem(), v))
+		}
+		return mkIndirValue(pt.Elem(), p)
+	}}
+	// reflect.New(t): a pointer Value to a fresh zero variable of type t
+	models["reflect.New"] = &Model{Takeover: func(cc *CallCtx) bool {
+		if !cc.forkArg(0) {
+			return false
+		}
+		t := typeArg(cc, cc.args[0])
+		if t == nil {
+			cc.e.raise(cc.c, TS.True, "reflect: New(nil)")
+			return false
+		}
+		cell := cc.e.allocCell(cc.c, t, "reflect.New:"+types.TypeString(t, nil))
+		storeCell(cell, zeroValue(t), cc.c.g)
+		cc.finish(mkReflectValue(types.NewPointer(t), refTo(cell)))
+		return true
+	}}
+	// Value.Set(x): store x into the variable an addressable Value denotes; x's type must be assignable
+	models["(reflect.Value).Set"] = &Model{Plain: func(cc *CallCtx) Value {
+		t := rvType(cc, cc.args[0])
+		if cc.c.g.IsFalse() {
+			return nil
+		}
+		addr := rvAddr(cc.args[0], cc.c.g)
+		if addr == nil || t == nil {
+			cc.e.raise(cc.c, TS.True, "reflect: reflect.Value.Set using unaddressable value")
+			return nil
+		}
+		xt := rvType(cc, cc.args[1])
+		if cc.c.g.IsFalse() {
+			return nil
+		}
+		if xt == nil {
+			cc.e.raise(cc.c, TS.True, "reflect: call of reflect.Value.Set on zero Value")
+			return nil
+		}
+		if !types.AssignableTo(xt, t) {
+			cc.e.raise(cc.c, TS.True, "reflect.Set: value of type "+types.TypeString(xt, nil)+" is not assignable to type "+types.TypeString(t, nil))
+			return nil
+		}
+		x := rvInner(cc.args[1], cc.c.g)
+		_, dstI := t.Underlying().(*types.Interface)
+		_, srcI := xt.Underlying().(*types.Interface)
+		if dstI && !srcI {
+			x = refTo(&IfaceVal{T: xt, V: x}) // boxing a concrete value into an interface variable
+		}
+		cc.e.store(cc.c, addr, x)
+		return nil
+	}}
+	// Value.Call: only for functions made by reflect.MakeFunc (runs the function given to MakeFunc on the
+	// argument Values, which is MakeFunc's contract) - an ordinary function value is not modelled here.
+	models["(reflect.Value).Call"] = &Model{Takeover: func(cc *CallCtx) bool {
+		t := rvType(cc, cc.args[0])
+		if cc.c.g.IsFalse() {
+			return false
+		}
+		if t == nil {
+			cc.e.raise(cc.c, TS.True, "reflect: call of reflect.Value.Call on zero Value")
+			return false
+		}
+		fr, ok := rvInner(cc.args[0], cc.c.g).(*RefV)
+		if !ok {
+			inconclusive("reflect.Value.Call on a non-function payload")
+		}
+		fr = pruneRefUnder(fr, cc.c.g)
+		if len(fr.Alts) != 1 {
+			inconclusive("reflect.Value.Call: function not unique")
+		}
+		fv, ok := fr.Alts[0].R.(*FuncVal)
+		if !ok {
+			cc.e.raise(cc.c, TS.True, "reflect: call of nil function")
+			return false
+		}
+		if fv.Model != "reflect.MakeFunc.result" || len(fv.Data) != 1 {
+			inconclusive("reflect.Value.Call is modelled only for functions made by reflect.MakeFunc")
+		}
+		site := cc
+		cc.e.callValue(cc.c, fv.Data[0], []Value{cc.args[1]}, func(e *Engine, c2 *Config, res Value) {
+			site.c = c2
+			site.finish(res)
+		}, nil)
+		return true
 	}}
 	models["(reflect.Value).Pointer"] = &Model{Plain: func(cc *CallCtx) Value {
 		t := rvType(cc, cc.args[0])
@@ -350,6 +526,33 @@ func init() {
 		case *SliceV:
 			return isNilTerm(v.Base)
 		}
+		return TS.False
+	}}
+	// Value.IsZero: the value equals the zero value of its type (basic, pointer, interface and the
+	// nil-able reference kinds; composite kinds are not modelled)
+	models["(reflect.Value).IsZero"] = &Model{Plain: func(cc *CallCtx) Value {
+		t := rvType(cc, cc.args[0])
+		if cc.c.g.IsFalse() {
+			return TS.False
+		}
+		if t == nil {
+			cc.e.raise(cc.c, TS.True, "reflect: call of reflect.Value.IsZero on zero Value")
+			return TS.False
+		}
+		v := rvInner(cc.args[0], cc.c.g)
+		switch t.Underlying().(type) {
+		case *types.Basic:
+			return cc.e.binop(cc.c, token.EQL, v, zeroValue(t), t, types.Typ[types.Bool])
+		case *types.Chan, *types.Signature, *types.Interface, *types.Map, *types.Pointer, *types.Slice:
+			switch x := v.(type) {
+			case *RefV:
+				return isNilTerm(x)
+			case *SliceV:
+				return isNilTerm(x.Base)
+			}
+			return TS.False
+		}
+		inconclusive("reflect.Value.IsZero of %s is not modelled", types.TypeString(t, nil))
 		return TS.False
 	}}
 	models["(reflect.Value).TryRecv"] = &Model{Visible: true, Enabled: always,
@@ -404,7 +607,7 @@ func init() {
 			cc.e.raise(cc.c, TS.True, "reflect: call of MakeFunc with non-Func type")
 			return false
 		}
-		cc.finish(mkReflectValue(t, refTo(&FuncVal{Model: "reflect.MakeFunc.result"})))
+		cc.finish(mkReflectValue(t, refTo(&FuncVal{Model: "reflect.MakeFunc.result", Data: []Value{cc.args[1]}})))
 		return true
 	}}
 
